@@ -238,6 +238,25 @@ static void dump_tasks(pid_t pid, char *out, size_t len)
 	closedir(d);
 }
 
+/* number of tasks in uninterruptible sleep: a system call that does not return (seen
+ * here: sys_membarrier waiting in the kernel for many seconds under machine-wide load)
+ * is not a logical stuck state of the library */
+static int count_tasks_state(pid_t pid, char st)
+{
+	char p[64];
+	int n = 0;
+	snprintf(p, sizeof(p), "/proc/%d/task", (int) pid);
+	DIR *d = opendir(p);
+	struct dirent *de;
+	if (!d)
+		return 0;
+	while ((de = readdir(d)))
+		if (de->d_name[0] != '.' && task_state(pid, atoi(de->d_name)) == st)
+			n++;
+	closedir(d);
+	return n;
+}
+
 static int count_tasks(pid_t pid)
 {
 	char p[64];
@@ -416,7 +435,7 @@ static void wait_child(pid_t pid, int rfd, struct shp *cs, const char *desc, str
 	char *in = NULL;
 	size_t in_len = 0, in_cap = 0;
 	uint64_t last = __atomic_load_n(&cs->progress, __ATOMIC_RELAXED), t_last = vp_now_ns();
-	int nsamp = 0, sleeping = 0, eof = 0;
+	int nsamp = 0, sleeping = 0, eof = 0, dstate = 0;
 	char *wit = calloc(1, 3 * 4096 + 64);
 	size_t wit_len = 0;
 	struct rq_snap rq0;
@@ -448,6 +467,7 @@ static void wait_child(pid_t pid, int rfd, struct shp *cs, const char *desc, str
 			t_last = now;
 			nsamp = 0;
 			sleeping = 0;
+			dstate = 0;
 			wit_len = 0;
 			bump();
 			continue;
@@ -456,6 +476,7 @@ static void wait_child(pid_t pid, int rfd, struct shp *cs, const char *desc, str
 			if (!nsamp)
 				rq_snapshot(pid, &rq0);
 			sleeping += thread_sleeping(pid, pid);
+			dstate += count_tasks_state(pid, 'D');
 			wit_len += (size_t) snprintf(wit + wit_len, 64, " sample %d at +%llu ms:\n", nsamp,
 						     (unsigned long long) ((now - t_last) / 1000000));
 			dump_tasks(pid, wit + wit_len, 4000);
@@ -474,7 +495,7 @@ static void wait_child(pid_t pid, int rfd, struct shp *cs, const char *desc, str
 					fclose(w);
 				}
 				int starved = rq_starved_permille(pid, &rq0);
-				if (sleeping == 3 && starved < 250) {
+				if (sleeping == 3 && starved < 250 && !dstate) {
 					/* phase is "<role>:<step>"; role child = the script right after the fork,
 					 * as-parent / parent = that process preparing / following a nested fork */
 					if (!strncmp(ph, "child:", 6))
@@ -485,8 +506,8 @@ static void wait_child(pid_t pid, int rfd, struct shp *cs, const char *desc, str
 					       desc, (int) pid, (unsigned long long) ((now - t_last) / 1000000), ph, path);
 					cr->hung = 1;
 				} else {
-					R_inconcl("fork child no progress in phase %s but thread not observed blocked (%d/3) or a thread starved of CPU (%d per mille): %s",
-						  ph, sleeping, starved, desc);
+					R_inconcl("fork child no progress in phase %s but not a confirmed stuck state (thread blocked at %d/3 samples, CPU starvation %d per mille, %d tasks in uninterruptible sleep): %s",
+						  ph, sleeping, starved, dstate, desc);
 					cr->hung = 2;
 				}
 				kill(pid, SIGKILL);
